@@ -748,7 +748,51 @@ fn machine_of_size(p: &mut Prng, target: usize) -> Option<Machine> {
 /// one state that fits.
 fn gen_limit_case(p: &mut Prng, id: &str, i: u64, w: &mut dyn Write) {
     let max = MAX_DECOMPRESSED_SIZE;
-    let (tag, target): (&str, Option<usize>) = match i % 6 {
+    if i % 7 == 6 {
+        // a large machine that barely compresses (random mantissas everywhere): its encoding is
+        // below the limit while its string is longer than the limit
+        use maybenot::action::Action;
+        use maybenot::dist::{Dist, DistType};
+        use maybenot::state::{State, Trans};
+        use enum_map::enum_map;
+        let rf = |p: &mut Prng| f64::from_bits(0x3ff0_0000_0000_0000 | (p.next() >> 12)); // [1, 2)
+        let rd = |p: &mut Prng| {
+            let lo = rf(p);
+            Dist { dist: DistType::Uniform { low: lo, high: lo + rf(p) }, start: rf(p), max: rf(p) * 1000.0 }
+        };
+        let mut states: Vec<State> = Vec::new();
+        let mut m = Machine { allowed_padding_packets: p.next(), max_padding_frac: 0.5, allowed_blocked_microsec: p.next(), max_blocking_frac: 0.5, states: vec![] };
+        loop {
+            let mut t = enum_map! { _ => vec![] };
+            t[maybenot::event::Event::NormalSent] = vec![Trans(0, f32::from_bits(0x3e00_0000 | (p.next() as u32 & 0x007f_ffff)))];
+            let mut st = State::new(t);
+            st.action = Some(Action::BlockOutgoing { bypass: p.chance(1, 2), replace: p.chance(1, 2), timeout: rd(p), duration: rd(p), limit: Some(rd(p)) });
+            st.counter = (
+                Some(maybenot::counter::Counter { operation: maybenot::counter::Operation::Increment, dist: Some(rd(p)), copy: false }),
+                Some(maybenot::counter::Counter { operation: maybenot::counter::Operation::Decrement, dist: Some(rd(p)), copy: false }),
+            );
+            states.push(st);
+            if states.len() % 64 == 0 {
+                m.states = states.clone();
+                if bincode_of(&m).len() > max - 40_000 {
+                    break;
+                }
+            }
+        }
+        m.states = states;
+        while bincode_of(&m).len() > max {
+            m.states.pop();
+        }
+        if m.validate().is_ok() {
+            observe_valid(id, "valid incompressible", &bincode_of(&m), w);
+        } else {
+            let _ = writeln!(w, "case {} valid incompressible", id);
+            let _ = writeln!(w, "bad incompressible-construction-invalid");
+            let _ = writeln!(w, "end");
+        }
+        return;
+    }
+    let (tag, target): (&str, Option<usize>) = match i % 7 {
         0 => ("valid exact-max", Some(max)),
         1 => ("valid max-1", Some(max - 1)),
         2 => ("valid max-2", Some(max - 2)),
